@@ -6,5 +6,5 @@ CONSTANTS
   Sizes = {0, 1, 4095, 4096, 4097, 8192}
   FLens = {0, 4096, 8192, 8193}
   FOffs = {0, 1, 4096, 8192, 1073737728, 1073741823}
-INVARIANTS ExactlySafe FlagTable BuildsWhatWasAsked
+INVARIANTS ExactlySafe ErrInSet FlagTable BuildsWhatWasAsked
 CHECK_DEADLOCK FALSE
